@@ -43,6 +43,17 @@ _ASCII_INT = re.compile(r'[+-]?[0-9]+\Z')
 _PROBLEM = re.compile(r'p cnf (0|[1-9][0-9]*) (0|[1-9][0-9]*)\Z')
 
 
+def _to_int(t):
+    """value of an ASCII integer token; numerals beyond python's int<->str limit (4300 digits,
+    where int() itself raises ValueError) are clipped: only their range matters"""
+    if not _ASCII_INT.match(t):
+        return int(t)
+    neg = t[0] == '-'
+    d = t.lstrip('+-').lstrip('0')
+    v = 0 if d == '' else (int(d) if len(d) <= 4300 else 10 ** 18)
+    return -v if neg else v
+
+
 def dimacs_writer_form(text):
     """the text must be:  comment lines (first character 'c') anywhere, exactly one line
     'p cnf N M', after it lines 'l1 l2 ... lk 0' (one clause per line, 1<=|li|<=N),
@@ -114,9 +125,9 @@ def dimacs_lenient(text):
             if len(parts) < 4:
                 return ('reject', 'problem_line', 'problem line with fewer than 4 fields: {!r}'.format(line))
             for t in parts[2:4]:
-                if not _ASCII_INT.match(t):
-                    return ('reject', 'problem_line_token:' + token_kind(t), 'problem line count {!r} is not an integer'.format(t))
-            nn, mm = int(parts[2]), int(parts[3])
+                if not _ASCII_INT.match(t) and not (_python_numeral(t) and not PYTHON_NUMERALS_ARE_MISREADINGS):
+                    return ('reject', 'token:' + token_kind(t), 'problem line count {!r} is not an integer of the format'.format(t))
+            nn, mm = _to_int(parts[2]), _to_int(parts[3])
             if nn < 0 or mm < 0:
                 return ('reject', 'problem_line', 'negative count in {!r}'.format(line))
             if n is not None and (nn, mm) != (n, m):
@@ -124,9 +135,9 @@ def dimacs_lenient(text):
             n, m = nn, mm
             continue
         for t in line.split():
-            if not _ASCII_INT.match(t):
-                return ('reject', 'token:' + token_kind(t), 'token {!r} is not an integer'.format(t))
-            toks.append(int(t))
+            if not _ASCII_INT.match(t) and not (_python_numeral(t) and not PYTHON_NUMERALS_ARE_MISREADINGS):
+                return ('reject', 'token:' + token_kind(t), 'token {!r} is not an integer of the format'.format(t))
+            toks.append(_to_int(t))
     if n is None:
         return ('reject', 'problem_line', 'no problem line')
     clauses, cur = [], []
@@ -147,15 +158,25 @@ def dimacs_lenient(text):
     return ('ok', n, [clauses])
 
 
+# Numerals that python's int() takes but that are not integers of the DIMACS format:
+# '1_0' (== 10), non-ASCII digits ('１', '١').  A reader that turns them into literals returns
+# clauses that are not written in the text.  Set to False to tolerate them instead.
+PYTHON_NUMERALS_ARE_MISREADINGS = True
+
+
+def _python_numeral(t):
+    if t.isascii():
+        return re.match(r'[+-]?[0-9]+(_[0-9]+)+\Z', t) is not None
+    try:
+        int(t)
+        return True
+    except ValueError:
+        return False
+
+
 def token_kind(t):
     """coarse class of a non-integer token (for stable violation keys)"""
-    if re.match(r'[+-]?[0-9]+(_[0-9]+)+\Z', t):
-        return 'underscore'
-    if not t.isascii() and t.lstrip('+-').isdigit():
-        return 'nonascii_digit'
-    if not t.isascii():
-        return 'nonascii'
-    return 'other'
+    return 'python_numeral' if _python_numeral(t) else 'other'
 
 
 # =====================================================================================
